@@ -455,45 +455,48 @@ Lemma tie_scalar_row_unfold p :
 Proof. reflexivity. Qed.
 
 (* ------------------------------------------------------------------ vtl_tp_shift against the specification *)
-(* A/S/Q/M: the macro is correct for every year and every shift *)
-Lemma macro_shift_partial p n : period_valid p = true ->
-  (p_ind p = IA \/ p_ind p = IS \/ p_ind p = IQ \/ p_ind p = IM) -> shift_impl p n = shift p n.
+(* the arithmetic branch (A/S/Q/M of the macro; every indicator before the fix) is correct for A, S, Q, M: every year, every shift *)
+Lemma shift_before_fix_asqm p n : period_valid p = true ->
+  (p_ind p = IA \/ p_ind p = IS \/ p_ind p = IQ \/ p_ind p = IM) -> shift_before_fix p n = shift p n.
 Proof.
   rewrite period_valid_iff. destruct p as [y i n0]. simpl. intros H Hi.
   destruct i; try (exfalso; destruct Hi as [Hi | [Hi | [Hi | Hi]]]; discriminate);
-    unfold shift_impl, shift, index, of_index; psimpl.
+    unfold shift_before_fix, shift, index, of_index; psimpl.
   - f_equal.
   - destruct (n0 + n <=? 0) eqn:E; f_equal; lia.
   - destruct (n0 + n <=? 0) eqn:E; f_equal; lia.
   - destruct (n0 + n <=? 0) eqn:E; f_equal; lia.
 Qed.
 
-(* W/D: correct as long as the shift stays inside the year and below the constant limit *)
-Lemma macro_shift_within_year p n : period_valid p = true ->
-  1 <= p_num p + n <= period_limit_impl (p_ind p) -> shift_impl p n = shift p n.
+Lemma time_agg_date_impl_W z : time_agg_date_impl z IW = mkP (iso_year_of z) IW (iso_week_of z).
+Proof. unfold time_agg_date_impl, time_agg_date_of. destruct (civil_from_days z) as [[y m] d]. reflexivity. Qed.
+
+Lemma time_agg_date_impl_D z : time_agg_date_impl z ID = mkP (year_of z) ID (doy_of z).
+Proof. rewrite time_agg_date_impl_ok. reflexivity. Qed.
+
+(* the macro after the fix computes the calendar shift for EVERY indicator, every year, every shift *)
+Lemma macro_shift_ok p n : period_valid p = true -> shift_impl p n = Some (shift p n).
 Proof.
-  intros V Hn. pose proof V as V'. rewrite period_valid_iff in V'.
-  assert (Hle : period_limit_impl (p_ind p) <= periods_in_year (p_ind p) (p_year p)).
-  { destruct (p_ind p); simpl; try lia.
-    - pose proof (weeks_in_year_52_53 (p_year p)). lia.
-    - pose proof (days_in_year_cases (p_year p)). lia. }
-  assert (Vq : period_valid (mkP (p_year p) (p_ind p) (p_num p + n)) = true) by (rewrite period_valid_iff; simpl; lia).
-  assert (Es : shift_impl p n = mkP (p_year p) (p_ind p) (p_num p + n)).
-  { unfold shift_impl. destruct p as [y i n0]. psimpl.
-    destruct i; psimpl.
-    - f_equal; lia.
-    - replace (n0 + n <=? 0) with false by lia. f_equal; lia.
-    - replace (n0 + n <=? 0) with false by lia. f_equal; lia.
-    - replace (n0 + n <=? 0) with false by lia. f_equal; lia.
-    - replace (n0 + n <=? 0) with false by lia. f_equal; lia.
-    - replace (n0 + n <=? 0) with false by lia. f_equal; lia. }
-  rewrite Es. symmetry.
-  assert (Ei : index (mkP (p_year p) (p_ind p) (p_num p + n)) = index p + n).
-  { unfold index. cbn [p_ind p_year p_num]. pose proof (week1_monday_bounds (p_year p)).
-    destruct (p_ind p); psimpl; unfold iso_week_start, date_of_doy; lia. }
-  unfold shift. rewrite <- Ei.
-  change (p_ind p) with (p_ind (mkP (p_year p) (p_ind p) (p_num p + n))) at 1.
-  apply of_index_index, Vq.
+  intros V. pose proof (start_date_impl_ok p V) as S. unfold shift_impl.
+  destruct (p_ind p) eqn:Ei;
+    try (f_equal; apply shift_before_fix_asqm; [exact V | rewrite Ei; tauto]).
+  - rewrite S. cbn [option_map]. f_equal. rewrite time_agg_date_impl_W.
+    unfold shift. rewrite Ei. cbn [of_index]. unfold index, start_date. rewrite Ei.
+    pose proof (iso_week_start_monday (p_year p) (p_num p)) as M.
+    replace (7 * ((iso_week_start (p_year p) (p_num p) + 3) / 7 + n) - 3) with (iso_week_start (p_year p) (p_num p) + 7 * n) by lia.
+    reflexivity.
+  - rewrite S. cbn [option_map]. f_equal. rewrite time_agg_date_impl_D.
+    unfold shift. rewrite Ei. cbn [of_index]. unfold index, start_date. rewrite Ei. reflexivity.
+Qed.
+
+Lemma macro_shift_inverse p n : period_valid p = true -> opt_bind (shift_impl p n) (fun q => shift_impl q (- n)) = Some p.
+Proof.
+  intros V. rewrite (macro_shift_ok p n V). cbn [opt_bind]. rewrite (macro_shift_ok _ _ (shift_valid p n)), (shift_inverse p n V). reflexivity.
+Qed.
+
+Lemma macro_shift_injective p q n : period_valid p = true -> period_valid q = true -> shift_impl p n = shift_impl q n -> p = q.
+Proof.
+  intros Vp Vq E. rewrite (macro_shift_ok p n Vp), (macro_shift_ok q n Vq) in E. injection E as E. exact (shift_injective p q n Vp Vq E).
 Qed.
 
 (* ------------------------------------------------------------------ dataset level *)
